@@ -229,6 +229,9 @@ pub struct HtlcSpec {
     /// onion carries forward_msat
     #[serde(default = "tru")]
     pub fwdmsat: bool,
+    /// value of the onion's forward_msat when it differs from what the HTLC really carries (0 = the HTLC amount)
+    #[serde(default)]
+    pub fwd_amt: u64,
     /// "ok" (metadata record with inner TLV) | "absent" | "raw:<hex>" (metadata bytes verbatim)
     #[serde(default = "ok")]
     pub meta: String,
@@ -330,7 +333,7 @@ pub fn request_json(id: u64, h: &HtlcSpec, invs: &[InvSpec], cache: &mut HashMap
         onion["short_channel_id"] = json!("1x2x3");
     }
     if h.fwdmsat {
-        onion["forward_msat"] = json!(h.amt);
+        onion["forward_msat"] = json!(if h.fwd_amt != 0 { h.fwd_amt } else { h.amt });
     }
     if h.total != 0 {
         onion["total_msat"] = json!(h.total);
